@@ -22,7 +22,7 @@ RULE = ("Hypothesis trees: depth <= 4 (6 in thorough), fan-out <= 4 (wide trees:
         "makes the trees unequal in both directions; deepcopy, pickle and serialise-and-parse copies are equal both ways and "
         "serialise identically. Non-trivial: >= 3 components and a repeated subcomponent name; distinct by hash.")
 ASSUMPTIONS = ["parameter-only differences are not asserted either way", "generated texts contain no backslash (RC-B would change them on serialise-and-parse; C01/C07 own that)"]
-REQUIRED_CLASSES = ["custom-zone", "repeated-sub-name", "unknown-component", "perturb:kind", "perturb:value", "perturb:zone", "perturb:add-sub", "perturb:remove-sub", "perturb:dup-sub",
+REQUIRED_CLASSES = ["custom-zone", "custom-zone:rule-with-interval", "custom-zone:rule-with-count", "repeated-sub-name", "unknown-component", "perturb:kind", "perturb:value", "perturb:zone", "perturb:add-sub", "perturb:remove-sub", "perturb:dup-sub",
                     "perturb:swap-mult", "root:VCALENDAR", "zoned-value"]
 
 
@@ -182,7 +182,7 @@ def judge(case):
     if case.get("kind") == "custom-zone":
         return judge_custom_zone(case, provider)
     fails = []
-    for section in (_traversal, _traversal_parsed, _equality, _non_components, _perturbation, _copies):
+    for section in (_traversal, _traversal_after_edits, _traversal_parsed, _equality, _non_components, _perturbation, _copies):
         try:
             section(case, provider)
         except Bad as b:
@@ -224,6 +224,66 @@ def _traversal(case, provider):
             got = getattr(a, attr)
             if len(got) != len(want) or any(x is not y for x, y in zip(got, want)):
                 raise Bad("C20.accessors", f"accessor-{attr}-differs", f"{len(got)} vs {len(want)}")
+
+
+def _own_preorder(comp):
+    out = [comp]
+    for s in comp.subcomponents:
+        out += _own_preorder(s)
+    return out
+
+
+def _check_accessors(a, when):
+    pre = _own_preorder(a)
+    w = a.walk()
+    if len(w) != len(pre) or any(x is not y for x, y in zip(w, pre)):
+        raise Bad("C20.walk", "walk-not-preorder-each-once/" + when, f"{[c.name for c in w]!r} vs {[c.name for c in pre]!r}")
+    for nm in sorted({c.name for c in pre} | {"VTIMEZONE", "VEVENT"}):
+        want = [c for c in pre if c.name == nm]
+        got = a.walk(nm.lower())
+        if len(got) != len(want) or any(x is not y for x, y in zip(got, want)):
+            raise Bad("C20.walk", "walk-by-name-differs/" + when, f"walk({nm.lower()!r}) -> {len(got)}, expected {len(want)}")
+    if isinstance(a, Calendar):
+        for attr, nm in (("events", "VEVENT"), ("todos", "VTODO"), ("timezones", "VTIMEZONE")):
+            want = [c for c in pre if c.name == nm]
+            got = getattr(a, attr)
+            if len(got) != len(want) or any(x is not y for x, y in zip(got, want)):
+                raise Bad("C20.accessors", f"accessor-{attr}-differs/" + when, f"{[str(c.get('UID', c.get('TZID', '?'))) for c in got]!r} vs {[str(c.get('UID', c.get('TZID', '?'))) for c in want]!r}")
+
+
+def _traversal_after_edits(case, provider):
+    """history: the accessors were read, the tree is then edited in place (replace / pop+append / nested add / reorder, with and
+    without a change of the number of direct subcomponents), and they are read again: they always describe the tree as it is"""
+    a = T.build(case["tree"], provider)
+    _check_accessors(a, "fresh")
+    keys = list(case["perm"]) + [case["perturb"]["node"], case["perturb"]["idx"]]
+    from icalendar import Event, Todo, Timezone
+    fresh = [lambda i: _named(Timezone(), "TZID", f"Edit/Zone{i}"), lambda i: _named(Event(), "UID", f"edit-{i}"), lambda i: _named(Todo(), "UID", f"edit-{i}")]
+    for step, k in enumerate(keys[:6]):
+        comps = _own_preorder(a)
+        target = comps[(k * 7 + step) % len(comps)]
+        new = fresh[(k + step) % 3](step)
+        op = (k + 2 * step) % 5
+        subs = target.subcomponents
+        if op == 0 and subs:
+            subs[k % len(subs)] = new                     # replace in place: same count
+        elif op == 1 and subs:
+            subs.pop(k % len(subs))
+            subs.append(new)                              # pop + append: same count
+        elif op == 2:
+            target.add_component(new)                     # nested add (the root's direct count only changes if target is the root)
+        elif op == 3 and len(subs) >= 2:
+            subs.reverse()
+        elif subs:
+            subs.pop(k % len(subs))
+        else:
+            target.add_component(new)
+        _check_accessors(a, "after-edit")
+
+
+def _named(comp, key, value):
+    comp.add(key, value)
+    return comp
 
 
 def _traversal_parsed(case, provider):
@@ -324,12 +384,29 @@ def _us_style():
         _obs("STANDARD", [2007, 11, 4, 2, 0, 0], -14400, -18000, "EST", {"FREQ": "YEARLY", "BYMONTH": [11], "BYDAY": ["1SU"]})]}
 
 
-def custom_zone_text(case):
+def _var_style(rule):
+    """EU-like zone whose DAYLIGHT rule carries generated extra rule parts (INTERVAL, COUNT, WKST): a copy must keep all of them"""
+    from checks.c09_parse_invariance import _obs
+    r = {"FREQ": "YEARLY", "BYMONTH": [3], "BYDAY": ["-1SU"]}
+    for k in ("INTERVAL", "COUNT", "WKST"):
+        if rule.get(k.lower()):
+            r[k] = [rule[k.lower()]]
+    return {"c": "VTIMEZONE", "p": [["TZID", {"k": "text", "v": "Custom/Var"}]], "s": [
+        _obs("DAYLIGHT", [2000, 3, 26, 2, 0, 0], 3600, 7200, "VST", r),
+        _obs("STANDARD", [2000, 10, 29, 3, 0, 0], 7200, 3600, "VT", {"FREQ": "YEARLY", "BYMONTH": [10], "BYDAY": ["-1SU"]})]}
+
+
+def _zone_defs(case):
     from checks.c09_parse_invariance import VTZ
-    from vlib.model import ical_text as M
     defs = dict(VTZ)
     defs["Custom/US"] = _us_style()
-    vt = defs[case["zone"]]
+    defs["Custom/Var"] = _var_style(case.get("rule") or {})
+    return defs
+
+
+def custom_zone_text(case):
+    from vlib.model import ical_text as M
+    vt = _zone_defs(case)[case["zone"]]
     evs = []
     for i, w in enumerate(case["walls"]):
         evs.append({"c": "VEVENT", "p": [["UID", {"k": "text", "v": f"u{i}"}], ["DTSTART", {"k": "naive", "v": w}, {"TZID": case["zone"]}],
@@ -389,7 +466,8 @@ def _first_diff(a, b):
 
 def info(case):
     if case.get("kind") == "custom-zone":
-        return {"nontrivial": True, "classes": ["custom-zone", "custom-zone:" + case["zone"]]}
+        extra = ["custom-zone:rule-with-" + k for k, v in (case.get("rule") or {}).items() if v and case["zone"] == "Custom/Var"]
+        return {"nontrivial": True, "classes": ["custom-zone", "custom-zone:" + case["zone"]] + extra}
     tree = case["tree"]
     ns = [n for _, n in nodes(tree)]
     classes = ["root:" + tree["c"].upper()] if tree["c"].upper() in ("VCALENDAR", "VEVENT") else []
@@ -418,7 +496,8 @@ def _model_of(vt_tree):
             r = pr["RRULE"]["v"]
             m = _re.fullmatch(r"(-?\d+)([A-Z]{2})", r["BYDAY"][0])
             until = r.get("UNTIL")
-            ob["rrule"] = {"bymonth": r["BYMONTH"][0], "byday": [int(m.group(1)), m.group(2)], "until": until[0]["v"] if until else None, "count": None}
+            ob["rrule"] = {"bymonth": r["BYMONTH"][0], "byday": [int(m.group(1)), m.group(2)], "until": until[0]["v"] if until else None,
+                           "count": (r.get("COUNT") or [None])[0], "interval": (r.get("INTERVAL") or [1])[0]}
         obs.append(ob)
     return {"tzid": "x", "obs": obs}
 
@@ -434,11 +513,8 @@ def region_custom_zone_fold(case):
     if case.get("kind") != "custom-zone":
         return False
     from datetime import datetime as _dt, timedelta as _td
-    from checks.c09_parse_invariance import VTZ
     from vlib.model import vtz as Z
-    defs = dict(VTZ)
-    defs["Custom/US"] = _us_style()
-    m = _model_of(defs[case["zone"]])
+    m = _model_of(_zone_defs(case)[case["zone"]])
     for ob in m["obs"]:
         d = ob["from"] - ob["to"]
         if d <= 0:
@@ -479,7 +555,9 @@ def _custom_zone_cases():
     wall = st.tuples(st.integers(1990, 2030), st.integers(1, 12), st.integers(1, 28), st.integers(0, 23), st.sampled_from([0, 30]), st.just(0)).map(list)
     edge = st.sampled_from([[2005, 7, 1, 12, 0, 0], [2010, 11, 3, 12, 0, 0], [2006, 10, 29, 1, 30, 0], [2021, 10, 31, 2, 30, 0], [2021, 3, 28, 2, 30, 0], [2010, 3, 14, 2, 30, 0]])
     return st.fixed_dictionaries({"kind": st.just("custom-zone"), "provider": st.sampled_from(["zoneinfo", "pytz"]),
-                                  "zone": st.sampled_from(["Custom/EU", "Custom/Fixed", "Custom/RD", "Custom/US"]),
+                                  "zone": st.sampled_from(["Custom/EU", "Custom/Fixed", "Custom/RD", "Custom/US", "Custom/Var", "Custom/Var"]),
+                                  "rule": st.fixed_dictionaries({"interval": st.sampled_from([None, 2, 2, 3]), "count": st.sampled_from([None, None, 5, 12]),
+                                                                 "wkst": st.sampled_from([None, "SU", "MO"])}),
                                   "walls": st.lists(st.one_of(wall, edge), min_size=1, max_size=4)})
 
 
